@@ -1,16 +1,5 @@
-HOOK_COMMITS = []
+HOOK_COMMITS = ["812c50e"]
 _PENDING = "not yet claimed: model/theorems/correspondence for this property are still being built (see DESIGN.md §8); no other technique is substituted"
 NOT_APPLICABLE = {"C%02d" % i: _PENDING for i in range(1, 21)}
-CHECKS = {
-    "C18": dict(
-        text="Lean 4 theorems about an exact model of the binary heap (with its position map) and of the union-find: "
-             "every history refines the abstract priority map / partition; the model is tied to the working tree by "
-             "running identical histories through the real PriorityQueue/ComponentFinder and the compiled model "
-             "(equal outputs) and by an independent abstract-spec oracle on the implementation's outputs",
-        design_ref="DESIGN.md §5 C18",
-        note="trusted: Lean kernel, axioms ⊆ {propext, Classical.choice, Quot.sound}; the hand-written model "
-             "(correspondence is differential testing: quick 9 000 random histories, thorough +exhaustive small spaces); "
-             "misuse histories (duplicate push, change_score of absent item) are outside the contract",
-        technique="Lean 4 refinement proof (heap ⊑ priority map, union-find = min of class) + differential correspondence",
-    ),
-}
+# properties whose check is registered (each harness/props/cXX.py carries its own MANIFEST dict)
+CLAIMED = ["C18"]
